@@ -220,7 +220,9 @@ impl TDigest {
                     self.centroids[i + 1].mean
                 };
 
-                return left + fraction * (right - left);
+                // Rounding (or an overflowing `right - left`) must not push the estimate
+                // outside the observed range.
+                return (left + fraction * (right - left)).clamp(self.min, self.max);
             }
 
             cumulative = next_cumulative;
